@@ -156,4 +156,432 @@ theorem values_agree (data : Bytes) :
     rw [hg] at h
     cases z <;> simp only at h <;> simp [h]
 
+/-! ### version -/
+
+/-- **C10_bad_version**: every version byte other than 0 and 1 is a failure, whatever the input -/
+theorem C10_bad_version (H : Bytes → Bytes) (version : Nat) (data : Bytes)
+    (h2 : 2 ≤ version) (h255 : version ≤ 255) :
+    hostRoot H version data = none ∧ hostOrderedRoot H version data = none := by
+  have hp : parseVersion version = none := by
+    simp only [parseVersion, Nat.mod_eq_of_lt (by omega : version < 256)]
+    rw [if_neg (by omega), if_neg (by omega)]
+  simp [hostRoot, hostOrderedRoot, hp]
+
+theorem parseVersion_some {version : Nat} {ver : Ver} (h : parseVersion version = some ver) :
+    (version % 256 = 0 ∧ ver = Ver.v0) ∨ (version % 256 = 1 ∧ ver = Ver.v1) := by
+  simp only [parseVersion] at h
+  split at h
+  · left; exact ⟨by assumption, by cases h; rfl⟩
+  · split at h
+    · right; exact ⟨by assumption, by cases h; rfl⟩
+    · cases h
+
+/-! ### the root of the decoded entries -/
+
+theorem lastWins_eq (kvs : List (Bytes × Bytes)) : lastWins kvs = C01.upsertAll [] kvs := rfl
+
+/-- **C10_root**: whenever the input decodes and the version is 0 or 1, the function returns the
+    spec root, for that version, of the map in which a later duplicate key wins. -/
+theorem C10_root (H : Bytes → Bytes) (version : Nat) (data : Bytes) (ver : Ver)
+    (es : List (Bytes × Bytes)) (z : Bool) (hv : parseVersion version = some ver)
+    (hd : unmarshalEntries data = some (es, z)) :
+    hostRoot H version data = some (specRoot ver H (lastWins es)) := by
+  simp only [hostRoot, hv, hd, C01.C01_layoutRoot, lastWins_eq]
+
+/-- the `_version_1` function is the version-0 root -/
+theorem C10_root_v1 (H : Bytes → Bytes) (data : Bytes) (es : List (Bytes × Bytes)) (z : Bool)
+    (hd : unmarshalEntries data = some (es, z)) :
+    hostRoot1 H data = some (specRoot Ver.v0 H (lastWins es)) :=
+  C10_root H 0 data Ver.v0 es z rfl hd
+
+theorem get_foldl_upsert (kvs : List (Bytes × Bytes)) (es : Entries) (k : Bytes) :
+    OMap.get k (kvs.foldl (fun es e => OMap.upsert e.1 e.2 es) es) =
+      match kvs.reverse.find? (fun e => e.1 == k) with
+      | some e => some e.2
+      | none => OMap.get k es := by
+  induction kvs generalizing es with
+  | nil => rfl
+  | cons e r ih =>
+    simp only [List.foldl_cons, ih, List.reverse_cons, List.find?_append]
+    cases hr : r.reverse.find? (fun e => e.1 == k) with
+    | some x => simp
+    | none =>
+      simp only [Option.none_or, List.find?_cons, List.find?_nil, OMap.get_upsert]
+      by_cases hk : e.1 = k
+      · simp [hk]
+      · have : ¬ k = e.1 := fun h => hk h.symm
+        have hb : (e.1 == k) = false := beq_eq_false_iff_ne.mpr hk
+        simp [hk, this, hb]
+
+/-- **C10_last_wins**: the map `lastWins` gives every key the value of its LAST occurrence in the
+    list, and no other key is present -/
+theorem C10_last_wins (kvs : List (Bytes × Bytes)) (k : Bytes) :
+    OMap.get k (lastWins kvs) = (kvs.reverse.find? (fun e => e.1 == k)).map (·.2) := by
+  rw [lastWins, get_foldl_upsert]
+  cases kvs.reverse.find? (fun e => e.1 == k) <;> simp [OMap.get]
+
+theorem sorted_lastWins (kvs : List (Bytes × Bytes)) : OMap.Sorted (lastWins kvs) :=
+  (C01.rep_putAll kvs Rep.empty).sorted
+
+/-! ### compact-encoded indices -/
+
+theorem compactNat_eq (n : Nat) : compactNat n = compactEnc n := by
+  unfold compactNat compactEnc
+  rw [show (2:Nat) ^ 14 = 16384 by decide, show (2:Nat) ^ 30 = 1073741824 by decide]
+  simp only [Nat.mul_comm n 4, Nat.mul_comm ((leMin n).length - 4) 4]
+
+theorem compactNat_inj {a b : Nat} (ha : a < 256 ^ 67) (hb : b < 256 ^ 67)
+    (h : compactNat a = compactNat b) : a = b := by
+  rw [compactNat_eq, compactNat_eq] at h
+  have h1 := compactDec_enc a ha []
+  have h2 := compactDec_enc b hb []
+  rw [h, h2] at h1
+  cases h1; rfl
+
+theorem indexed_eq (vs : List Bytes) : ∀ i, i + vs.length ≤ 256 ^ 67 → indexed i vs = indexedSpec i vs := by
+  induction vs with
+  | nil => intro i _; rfl
+  | cons v r ih =>
+    intro i h
+    simp only [List.length_cons] at h
+    simp only [indexed, indexedSpec]
+    rw [C11.C11_encodeBigInt_canonical i (by omega), ← compactNat_eq, ih (i + 1) (by omega)]
+
+theorem decodeUintV_lt {bs : Bytes} {l : Nat} {r : Bytes} (h : C11.decodeUintV bs = some (l, r)) :
+    l < 18446744073709551616 := by
+  rw [C11.decodeUint_spec] at h
+  unfold C11.filt at h
+  split at h
+  · rename_i n r' _
+    split at h
+    · rename_i hok
+      cases h
+      simp only [C11.uintOk, Bool.or_eq_true, Bool.and_eq_true, decide_eq_true_eq] at hok
+      omega
+    · cases h
+  · cases h
+
+theorem decSeqGo_length {α : Type} (dec : Bytes → Dec α) : ∀ (n : Nat) (bs : Bytes) (xs : List α)
+    (r : Bytes) (z : Bool), decSeqGo dec n bs = some (xs, r, z) → xs.length = n := by
+  intro n
+  induction n with
+  | zero => intro bs xs r z h; simp [decSeqGo] at h; simp [h.1]
+  | succ n ih =>
+    intro bs xs r z h
+    simp only [decSeqGo] at h
+    split at h
+    · cases h
+    · rename_i x r1 z1 _
+      split at h
+      · cases h
+      · rename_i xs' r' z2 hrec
+        cases h
+        simp [ih _ _ _ _ hrec]
+
+theorem unmarshalValues_length {data : Bytes} {vs : List Bytes} {z : Bool}
+    (h : unmarshalValues data = some (vs, z)) : vs.length < 18446744073709551616 := by
+  simp only [unmarshalValues, decSliceGo] at h
+  cases hu : C11.decodeUintV data with
+  | none => simp [hu] at h
+  | some p =>
+    obtain ⟨l, r⟩ := p
+    simp only [hu] at h
+    cases hs : decSeqGo decBytesGo l r with
+    | none => simp [hs] at h
+    | some q =>
+      obtain ⟨xs, r', z'⟩ := q
+      simp only [hs, Option.map_some, Option.some.injEq, Prod.mk.injEq] at h
+      have := decSeqGo_length decBytesGo l r xs r' z' hs
+      have := decodeUintV_lt hu
+      rw [← h.1]; omega
+
+theorem pow_bound : (18446744073709551616 : Nat) ≤ 256 ^ 67 := by decide
+
+/-- **C10_ordered_root**: whenever the input decodes to the values `v_0 … v_{n-1}` and the version
+    is 0 or 1, the function returns the spec root of the map `{compact(i) ↦ v_i}`. -/
+theorem C10_ordered_root (H : Bytes → Bytes) (version : Nat) (data : Bytes) (ver : Ver)
+    (vs : List Bytes) (z : Bool) (hv : parseVersion version = some ver)
+    (hd : unmarshalValues data = some (vs, z)) :
+    hostOrderedRoot H version data = some (specRoot ver H (lastWins (indexedSpec 0 vs))) := by
+  have hl := unmarshalValues_length hd
+  have hb := pow_bound
+  simp only [hostOrderedRoot, hv, hd, C01.C01_layoutRoot, lastWins_eq,
+    indexed_eq vs 0 (by omega)]
+
+theorem indexedSpec_keys (vs : List Bytes) : ∀ (i : Nat) (e : Bytes × Bytes), e ∈ indexedSpec i vs →
+    ∃ j, i ≤ j ∧ j < i + vs.length ∧ e.1 = compactNat j := by
+  induction vs with
+  | nil => intro i e h; simp [indexedSpec] at h
+  | cons v r ih =>
+    intro i e h
+    simp only [indexedSpec, List.mem_cons] at h
+    rcases h with h | h
+    · exact ⟨i, Nat.le_refl _, by simp, by rw [h]⟩
+    · obtain ⟨j, h1, h2, h3⟩ := ih (i + 1) e h
+      exact ⟨j, by omega, by simp only [List.length_cons]; omega, h3⟩
+
+theorem get_indexedSpec (vs : List Bytes) : ∀ (i : Nat) (es : Entries) (j : Nat), i ≤ j →
+    j < i + vs.length → i + vs.length ≤ 256 ^ 67 →
+    OMap.get (compactNat j) ((indexedSpec i vs).foldl (fun es e => OMap.upsert e.1 e.2 es) es) =
+      vs[j - i]? := by
+  induction vs with
+  | nil => intro i es j h1 h2; simp at h2; omega
+  | cons v r ih =>
+    intro i es j h1 h2 hb
+    simp only [List.length_cons] at h2 hb
+    simp only [indexedSpec, List.foldl_cons]
+    by_cases hj : j = i
+    · subst hj
+      rw [get_foldl_upsert]
+      have hnone : (indexedSpec (j + 1) r).reverse.find? (fun e => e.1 == compactNat j) = none := by
+        rw [List.find?_eq_none]
+        intro e he
+        obtain ⟨j', hj1, hj2, hj3⟩ := indexedSpec_keys r (j + 1) e (List.mem_reverse.mp he)
+        simp only [beq_iff_eq, hj3]
+        intro hc
+        have := compactNat_inj (by omega) (by omega) hc
+        omega
+      rw [hnone]
+      simp [OMap.get_upsert]
+    · rw [ih (i + 1) _ j (by omega) (by omega) (by omega)]
+      rw [show j - i = (j - (i + 1)) + 1 by omega, List.getElem?_cons_succ]
+
+/-- **C10_ordered_entries**: the map of the ordered root has, for every index `i < n`, the key
+    `compact(i)` (one, two, four or more bytes: all `n`, across 64 and 16384) with the value `v_i` -/
+theorem C10_ordered_entries (vs : List Bytes) (hb : vs.length ≤ 256 ^ 67) (i : Nat) (hi : i < vs.length) :
+    OMap.get (compactNat i) (lastWins (indexedSpec 0 vs)) = some vs[i] := by
+  rw [lastWins, get_indexedSpec vs 0 [] i (Nat.zero_le _) (by omega) (by omega)]
+  simp [hi]
+
+/-- and nothing else: every key of that map is `compact(i)` for some `i < n` -/
+theorem C10_ordered_keys (vs : List Bytes) (k : Bytes) (v : Bytes)
+    (h : OMap.get k (lastWins (indexedSpec 0 vs)) = some v) : ∃ i, i < vs.length ∧ k = compactNat i := by
+  rw [C10_last_wins] at h
+  cases hf : (indexedSpec 0 vs).reverse.find? (fun e => e.1 == k) with
+  | none => simp [hf] at h
+  | some e =>
+    have hm := List.mem_of_find?_eq_some hf
+    have hk := List.find?_some hf
+    obtain ⟨j, _, hj, hj3⟩ := indexedSpec_keys vs 0 e (List.mem_reverse.mp hm)
+    exact ⟨j, by omega, by rw [← hj3]; exact (beq_iff_eq.mp hk).symm⟩
+
+/-! ### undecodable input -/
+
+/-- **C10_undecodable** — FULL STATEMENT (false for the code): `strictEntries data = none →
+    hostRoot H version data = none`.  Proved for every input on which the Go decoder does not
+    zero-fill a truncated byte string (`shortRead … = false`), every version. -/
+theorem C10_undecodable_partial (H : Bytes → Bytes) (version : Nat) (data : Bytes)
+    (hs : strictEntries data = none) (hz : shortRead Fn.root2 data = false) :
+    hostRoot H version data = none := by
+  have h := entries_agree data
+  simp only [shortRead] at hz
+  simp only [hostRoot]
+  cases parseVersion version with
+  | none => rfl
+  | some ver =>
+    cases hu : unmarshalEntries data with
+    | none => rfl
+    | some p =>
+      obtain ⟨es, z⟩ := p
+      rw [hu] at h hz
+      simp only at hz
+      subst hz
+      simp only at h
+      rw [hs] at h; cases h
+
+theorem C10_ordered_undecodable_partial (H : Bytes → Bytes) (version : Nat) (data : Bytes)
+    (hs : strictValues data = none) (hz : shortRead Fn.oroot2 data = false) :
+    hostOrderedRoot H version data = none := by
+  have h := values_agree data
+  simp only [shortRead] at hz
+  simp only [hostOrderedRoot]
+  cases parseVersion version with
+  | none => rfl
+  | some ver =>
+    cases hu : unmarshalValues data with
+    | none => rfl
+    | some p =>
+      obtain ⟨vs, z⟩ := p
+      rw [hu] at h hz
+      simp only at hz
+      subst hz
+      simp only at h
+      rw [hs] at h; cases h
+
+/-- inside the region: `04 00 14 aa` — one entry, empty key, a value of declared length 5 with one
+    byte present — is not decodable, yet a root (of the value `aa 00 00 00 00`) comes back -/
+theorem C10_undecodable_counterexample :
+    ∃ d1 d2 : Bytes, strictEntries d1 = none ∧ strictValues d2 = none ∧
+      ∀ H : Bytes → Bytes, (hostRoot H 0 d1).isSome = true ∧ (hostOrderedRoot H 1 d2).isSome = true := by
+  refine ⟨[0x04, 0x00, 0x14, 0xaa], [0x04, 0x14, 0xaa], by decide, by decide, fun H => ?_⟩
+  have h1 : unmarshalEntries [0x04, 0x00, 0x14, 0xaa] = some ([([], [0xaa, 0, 0, 0, 0])], true) := by
+    decide
+  have h2 : unmarshalValues [0x04, 0x14, 0xaa] = some ([[0xaa, 0, 0, 0, 0]], true) := by decide
+  constructor
+  · simp [hostRoot, parseVersion, h1]
+  · simp [hostOrderedRoot, parseVersion, h2]
+
+/-! ### every entry list: decoding its encoding -/
+
+theorem decodeUintV_compactNat (n : Nat) (hn : n < 4294967296) (r : Bytes) :
+    C11.decodeUintV (compactNat n ++ r) = some (n, r) := by
+  rw [compactNat_eq, C11.decodeUint_spec, compactDec_enc n (by
+    have := pow_bound; omega) r]
+  have : C11.uintOk n = true := by simp [C11.uintOk, hn]
+  simp [C11.filt, this]
+
+theorem decBytesStrict_scaleBytes (b : Bytes) (hb : b.length < 4294967296) (r : Bytes) :
+    decBytesStrict (scaleBytes b ++ r) = some (b, r) := by
+  simp only [decBytesStrict, scaleBytes, List.append_assoc, decodeUintV_compactNat _ hb]
+  rw [if_neg (by omega), if_neg (by simp)]
+  simp
+
+/-- sizes a 32-bit guest can produce -/
+def EntriesOk (es : List (Bytes × Bytes)) : Prop :=
+  es.length < 4294967296 ∧ ∀ e ∈ es, e.1.length < 4294967296 ∧ e.2.length < 4294967296
+
+def ValuesOk (vs : List Bytes) : Prop :=
+  vs.length < 4294967296 ∧ ∀ v ∈ vs, v.length < 4294967296
+
+theorem decSeqStrict_entries (es : List (Bytes × Bytes))
+    (h : ∀ e ∈ es, e.1.length < 4294967296 ∧ e.2.length < 4294967296) (r : Bytes) :
+    decSeqStrict decEntryStrict es.length (es.flatMap (fun e => scaleBytes e.1 ++ scaleBytes e.2) ++ r)
+      = some (es, r) := by
+  induction es with
+  | nil => simp [decSeqStrict]
+  | cons e t ih =>
+    have he := h e (by simp)
+    simp only [List.length_cons, decSeqStrict, List.flatMap_cons, List.append_assoc, decEntryStrict,
+      decBytesStrict_scaleBytes _ he.1, decBytesStrict_scaleBytes _ he.2]
+    rw [ih (fun x hx => h x (by simp [hx]))]
+
+theorem decSeqStrict_values (vs : List Bytes) (h : ∀ v ∈ vs, v.length < 4294967296) (r : Bytes) :
+    decSeqStrict decBytesStrict vs.length (vs.flatMap scaleBytes ++ r) = some (vs, r) := by
+  induction vs with
+  | nil => simp [decSeqStrict]
+  | cons v t ih =>
+    simp only [List.length_cons, decSeqStrict, List.flatMap_cons, List.append_assoc,
+      decBytesStrict_scaleBytes _ (h v (by simp))]
+    rw [ih (fun x hx => h x (by simp [hx]))]
+
+/-- the canonical decoder inverts the encoder (trailing bytes are left over) -/
+theorem strictEntries_enc (es : List (Bytes × Bytes)) (h : EntriesOk es) (r : Bytes) :
+    strictEntries (encEntries es ++ r) = some es := by
+  simp only [strictEntries, decSliceStrict, encEntries, List.append_assoc,
+    decodeUintV_compactNat _ h.1, decSeqStrict_entries es h.2 r, Option.map_some]
+
+theorem strictValues_enc (vs : List Bytes) (h : ValuesOk vs) (r : Bytes) :
+    strictValues (encValues vs ++ r) = some vs := by
+  simp only [strictValues, decSliceStrict, encValues, List.append_assoc,
+    decodeUintV_compactNat _ h.1, decSeqStrict_values vs h.2 r, Option.map_some]
+
+/-- … and so does the Go decoder, without zero-filling -/
+theorem unmarshalEntries_enc (es : List (Bytes × Bytes)) (h : EntriesOk es) (r : Bytes) :
+    unmarshalEntries (encEntries es ++ r) = some (es, false) := by
+  have ha := entries_agree (encEntries es ++ r)
+  rw [strictEntries_enc es h r] at ha
+  cases hu : unmarshalEntries (encEntries es ++ r) with
+  | none => rw [hu] at ha; cases ha
+  | some p =>
+    obtain ⟨es', z⟩ := p
+    rw [hu] at ha
+    cases z with
+    | true => cases ha
+    | false => simp only [Option.some.injEq] at ha; rw [ha]
+
+theorem unmarshalValues_enc (vs : List Bytes) (h : ValuesOk vs) (r : Bytes) :
+    unmarshalValues (encValues vs ++ r) = some (vs, false) := by
+  have ha := values_agree (encValues vs ++ r)
+  rw [strictValues_enc vs h r] at ha
+  cases hu : unmarshalValues (encValues vs ++ r) with
+  | none => rw [hu] at ha; cases ha
+  | some p =>
+    obtain ⟨vs', z⟩ := p
+    rw [hu] at ha
+    cases z with
+    | true => cases ha
+    | false => simp only [Option.some.injEq] at ha; rw [ha]
+
+/-- **C10_root_of_encoding**: for EVERY entry list (duplicates, empty keys and values, any number
+    of entries below 2^32), every version and every trailing garbage: the function applied to the
+    SCALE encoding of the list returns the spec root of the last-wins map for version 0 / 1 (as a
+    byte) and failure for every other version. -/
+theorem C10_root_of_encoding (H : Bytes → Bytes) (version : Nat) (es : List (Bytes × Bytes))
+    (h : EntriesOk es) (r : Bytes) :
+    hostRoot H version (encEntries es ++ r) =
+      (parseVersion version).map (fun ver => specRoot ver H (lastWins es)) := by
+  cases hv : parseVersion version with
+  | none => simp [hostRoot, hv]
+  | some ver => rw [C10_root H version _ ver es false hv (unmarshalEntries_enc es h r)]; rfl
+
+/-- **C10_ordered_root_of_encoding**: for EVERY list of values the ordered-root function applied to
+    its encoding returns the spec root of `{compact(i) ↦ v_i}`. -/
+theorem C10_ordered_root_of_encoding (H : Bytes → Bytes) (version : Nat) (vs : List Bytes)
+    (h : ValuesOk vs) (r : Bytes) :
+    hostOrderedRoot H version (encValues vs ++ r) =
+      (parseVersion version).map (fun ver => specRoot ver H (lastWins (indexedSpec 0 vs))) := by
+  cases hv : parseVersion version with
+  | none => simp [hostOrderedRoot, hv]
+  | some ver => rw [C10_ordered_root H version _ ver vs false hv (unmarshalValues_enc vs h r)]; rfl
+
+/-- non-vacuity: a list with a duplicate key, an empty key, an empty value and a 33-byte value -/
+example : EntriesOk [([0x10], [1]), ([0x10, 0x01], []), ([], List.replicate 33 7), ([0x10], [2])] := by
+  refine ⟨by decide, ?_⟩
+  intro e he
+  simp only [List.mem_cons, List.mem_nil_iff, or_false] at he
+  rcases he with rfl | rfl | rfl | rfl <;> decide
+
+/-! ### model = specification (what the driver compares) -/
+
+theorem root_refines (H : Bytes → Bytes) (version : Nat) (data : Bytes)
+    (hz : shortRead Fn.root2 data = false) : hostRoot H version data = specRootFn H version data := by
+  have h := entries_agree data
+  simp only [shortRead] at hz
+  simp only [hostRoot, specRootFn]
+  cases parseVersion version with
+  | none => rfl
+  | some ver =>
+    cases hu : unmarshalEntries data with
+    | none => rw [hu] at h; simp only at h; simp [h]
+    | some p =>
+      obtain ⟨es, z⟩ := p
+      rw [hu] at h hz
+      simp only at hz
+      subst hz
+      simp only at h
+      simp only [h, C01.C01_layoutRoot, lastWins_eq]
+
+theorem ordered_refines (H : Bytes → Bytes) (version : Nat) (data : Bytes)
+    (hz : shortRead Fn.oroot2 data = false) :
+    hostOrderedRoot H version data = specOrderedRootFn H version data := by
+  have h := values_agree data
+  simp only [shortRead] at hz
+  simp only [hostOrderedRoot, specOrderedRootFn]
+  cases parseVersion version with
+  | none => rfl
+  | some ver =>
+    cases hu : unmarshalValues data with
+    | none => rw [hu] at h; simp only at h; simp [h]
+    | some p =>
+      obtain ⟨vs, z⟩ := p
+      have hl := unmarshalValues_length hu
+      have hb := pow_bound
+      rw [hu] at h hz
+      simp only at hz
+      subst hz
+      simp only at h
+      simp only [h, C01.C01_layoutRoot, lastWins_eq, indexed_eq vs 0 (by omega)]
+
+/-- FULL STATEMENT (false for the code): `∀ f v d, runModel H f v d = runSpec H f v d`.
+    On every input outside the short-read region, for all four host functions, every version
+    argument and every hash function, the model of the Go code returns what the specification
+    demands: the spec root of the strictly decoded list, or failure. -/
+theorem C10_refines_partial (H : Bytes → Bytes) (f : Fn) (version : Nat) (data : Bytes)
+    (hz : shortRead f data = false) : runModel H f version data = runSpec H f version data := by
+  cases f with
+  | root1 => exact root_refines H 0 data hz
+  | root2 => exact root_refines H version data hz
+  | oroot1 => exact ordered_refines H 0 data hz
+  | oroot2 => exact ordered_refines H version data hz
+
 end Gossamer.C10
